@@ -37,10 +37,8 @@ func init() {
 	register("C15", "other", func(c *Ctx) {
 		c.Run.Explainf("C15 (regeneration stable in the presence of earlier output) — only the structural core of the second sentence is decided: in the run function of package main (found by role: the error-returning function main tests), on every path on which -rm and -out are set, os.Remove of exactly the -out path executes before moq.New, the only entry to the package loader (go/cfg reachability with the Remove node deleted and branches pruned by the flag assumptions); an error other than not-exist aborts before the load; a successful removal continues to it. Two necessary conditions of the first sentence are decided as well: the -out file is replaced as a whole (a single os.WriteFile of the complete buffer; no other file-writing API in package main) and a new import starts with exactly the alias the loaded source files — moq's previous output included — use for its canonical path. NOT decided: the fixed-point sentence (whether aliases harvested from moq's own previous output reproduce the same output depends on the values the alias algorithm computes).")
 		c.Run.Assumef("os.Remove, errors.Is/os.ErrNotExist behave as documented; packages are loaded only through moq.New (checked: it is the only call into pkg/moq before generation)")
-		if cl := cli(c); cl != nil {
-			gen.CheckRemove(c.Run, c.Prog, cl)
-			gen.CheckFileReplaced(c.Run, c.Prog, cl)
-		}
+		cliRemove(c)
+		cliFileReplaced(c)
 		// the aliases moq reads back from its own earlier output: a new import starts with exactly the alias found in the source files
 		gen.CheckImports(c.Run, c.Prog)
 		importTables(c)
@@ -50,20 +48,17 @@ func init() {
 	register("C18", "other", func(c *Ctx) {
 		c.Run.Explainf("C18 (moq modifies nothing but the requested output file): who-may-call / effect analysis over the type-resolved syntax of moq's four packages — the call sites of file-system, process and environment mutators (os.Remove/RemoveAll/Rename/Mkdir*/Create*/OpenFile/WriteFile/Chmod/…, (*os.File) writers, os/exec, ioutil, syscall writers; also their use as values) are exactly os.Remove, os.MkdirAll and os.WriteFile in main's run function, applied to the -out path (MkdirAll: filepath.Dir of it); with -out unset no mutator is reachable, without -rm no removal is reachable (go/cfg with branches pruned by flag assumptions); every packages.Config literal sets only Mode and Dir (Overlay would write files, BuildFlags/Env can make `go list` rewrite go.mod).")
 		c.Run.Assumef("effects of the go command that packages.Load spawns (module cache, build cache) are outside the program; dependencies (x/tools) are covered by the thorough tier's call-graph listing only")
-		if cl := cli(c); cl != nil {
-			gen.CheckEffects(c.Run, c.Prog, cl)
-			if c.Tier == "thorough" {
-				gen.CheckEffectsGraph(c.Run, c.Prog)
-			}
+		gen.CheckEffectSites(c.Run, c.Prog)
+		cliEffects(c)
+		if c.Tier == "thorough" {
+			gen.CheckEffectsGraph(c.Run, c.Prog)
 		}
 		gen.PositiveControlEffects(c.Run, c.Prog)
 	})
 	register("C17", "other", func(c *Ctx) {
 		c.Run.Explainf("C17 (output is all-or-nothing): three functions. (1) (*Mocker).Mock is interpreted abstractly, path-sensitively (every fallible call — interface lookup of the k-th of n names, template execution, formatting, the write — returns an abstract error that is nil or not; all combinations are explored, no solver): on every path the caller's writer is written at most once, as the last event, with the formatted bytes of a local buffer the template was executed into; a failure of anything ends the run at once and is returned. (2) run (package main, go/cfg): with -out set Mock writes into a local buffer, without it to os.Stdout; os.MkdirAll/os.WriteFile are reachable only through the nil branches of the error tests of moq.New and Mock; the file content is that buffer; MkdirAll precedes the write and is checked; the write is last and its error returned. (3) main: on failure the error is printed to os.Stderr on every path, never to stdout, and every exit is os.Exit with a non-zero constant; on success no non-zero exit.")
 		c.Run.Assumef("what the operating system does inside a failing os.WriteFile (a truncated file) and a writer that fails after b bytes are outside static reach")
-		if cl := cli(c); cl != nil {
-			gen.CheckAllOrNothingCLI(c.Run, c.Prog, cl)
-		}
+		cliAllOrNothing(c)
 		// an unloadable package is a failure, whatever its errors say
 		gen.CheckLoadErrorsFatal(c.Run, c.Prog)
 		c.Run.Floor("G-CLI/errors", 4)
